@@ -168,7 +168,8 @@ pub fn run(ctx: &mut crate::Ctx) {
         let wsel = |w: WindowStatement| { let mut s = Query::select(); s.expr_window(a.e1.clone(), w).from(id(&a.t)); s };
         pair!("window.frame_between", wsel({ let mut w = WindowStatement::new(); w.partition_by(id(&a.a)).frame_between(FrameType::Rows, Frame::Preceding(2), Frame::CurrentRow); w }), wsel({ let mut w = WindowStatement::new(); w.partition_by(id(&a.a)).frame(FrameType::Rows, Frame::Preceding(2), Some(Frame::CurrentRow)); w }));
         pair!("window.frame_start", wsel({ let mut w = WindowStatement::new(); w.partition_by(id(&a.a)).frame_start(FrameType::Range, Frame::UnboundedPreceding); w }), wsel({ let mut w = WindowStatement::new(); w.partition_by(id(&a.a)).frame(FrameType::Range, Frame::UnboundedPreceding, None); w }));
-        pair!("window.partition_by_custom", wsel({ let mut w = WindowStatement::new(); w.partition_by_custom("x"); w }), wsel({ let mut w = WindowStatement::new(); w.add_partition_by([Expr::cust("x")]); w }));
+        pair!("window.partition_by_custom", wsel(WindowStatement::partition_by_custom("x")), wsel({ let mut w = WindowStatement::new(); w.add_partition_by(Expr::cust("x")); w }));
+        pair!("window.partition_by_customs", wsel({ let mut w = WindowStatement::new(); w.partition_by_customs(["x", "y"]); w }), wsel({ let mut w = WindowStatement::new(); w.add_partition_by(Expr::cust("x")).add_partition_by(Expr::cust("y")); w }));
         pair!("window.order_by_columns", wsel({ let mut w = WindowStatement::new(); w.order_by_columns([(id(&a.a), Order::Asc), (id(&a.b), Order::Desc)]); w }), wsel({ let mut w = WindowStatement::new(); w.order_by(id(&a.a), Order::Asc).order_by(id(&a.b), Order::Desc); w }));
         let _ = (&a.e3, &a.c);
     }
